@@ -91,6 +91,11 @@ def check(ctx):
     bigscript = [x for ln in biglines for x in ("R", ln)]
     tb = ctx.drive(drv, bigscript, "crc_big", lines_per_proc=2, timeout=1500)
     bad = ctx.judge("CrcTrace", [t, tb], shards=16)
+    # the second build configuration (size-optimised, plain char unsigned) on part of the executions
+    ta = ctx.drive(ctx.cxx("drv_crc_alt", ["drv_crc.cpp", R + "/igris/util/crc.c"], alt=True), core.subset_executions(script, ctx.seed, 1.0 if ctx.thorough else 0.34), "crc_alt")
+    bada = ctx.judge("CrcTrace", [ta], shards=16)
+    for b in bada: b["driver"] = "drv_crc@alt"
+    bad += bada
     for b in bad: b["driver"] = "drv_crc"
     ctx.report(bad)
     ctx.assumptions += [
@@ -102,7 +107,7 @@ def check(ctx):
 
 def replay(ctx, path):
     d = json.load(open(path))
-    drv = ctx.cxx("drv_crc", ["drv_crc.cpp", core.REPO + "/igris/util/crc.c"])
+    drv = ctx.cxx("drv_crc", ["drv_crc.cpp", core.REPO + "/igris/util/crc.c"], alt=core.is_alt(d))
     e = d["event"]
     if e.get("e") == "Fault":
         return core.replay_fault(ctx, d, drv, "CrcTrace", path)
